@@ -904,7 +904,7 @@ class FunctionAnalysis:
         val = self.mi.assigns[fn.id]
 
         def is_cache(x):
-            return isinstance(x, ast.Name | ast.Attribute) and ast.unparse(x).split('.')[-1] in ('lru_cache', 'cache')
+            return isinstance(x, ast.Name | ast.Attribute) and self.eff.repo.ext_path(self.mi.name, x) in ('functools.lru_cache', 'functools.cache')
         if isinstance(val, ast.Call) and (is_cache(val.func) or (isinstance(val.func, ast.Call) and is_cache(val.func.func))):
             return f'g:{self.mi.name}.{fn.id}#cache'
         return None
@@ -1030,7 +1030,7 @@ class FunctionAnalysis:
         if 'property' in decs:
             pass
         ret = self.translate_av(s.ret, binding)
-        if any(d.split('(')[0].split('.')[-1] in ('lru_cache', 'cache') for d in decs):
+        if self.eff.repo.memoised(fi):
             # a memoised function hands out the one object it stored
             tok = f'g:{fi.fq}#cache'
             ret = AV(ret.cont | {tok}, ret.elem | {tok + '[]'}, False, ret.fields)
